@@ -427,6 +427,7 @@ class Doist(tyming.Tymist):
             deeds = self.deeds
 
         deeds.append((None, None, None))  # append run through once marker
+        redogs = set()  # dogs reappended by this run through once
         while deeds: # do while uses explicit break to exit while
             dog, retyme, doer = deeds.popleft()  # pop it off
             if not dog:  # Marker detected so this run through once has completed
@@ -449,6 +450,16 @@ class Doist(tyming.Tymist):
                     deeds.append((dog, retyme, doer))  # reappend for next run through
             else:  # not retyme yet
                 deeds.append((dog, retyme, doer))  # reappend for next pass
+            redogs.add(dog)  # harmless when dog completed instead
+
+        # .extend called by a doer during this run through appended its new deeds
+        # ahead of the deeds reappended after it, so move new deeds last to
+        # restore enter order for later run throughs
+        fresh = [deed for deed in deeds if deed[0] not in redogs]
+        if fresh:
+            stale = [deed for deed in deeds if deed[0] in redogs]
+            deeds.clear()
+            deeds.extend(stale + fresh)
 
         self.tick()  # advance .tyme by one doist .tock
 
@@ -1336,6 +1347,7 @@ class DoDoer(Doer):
             deeds = self.deeds
 
         deeds.append((None, None, None))  # append run through once marker
+        redogs = set()  # dogs reappended by this run through once
         while deeds:  # do while uses explicit break to exit while
             dog, retyme, doer = deeds.popleft()  # pop it off
             if not dog:  # Marker detected so this run through once has completed
@@ -1358,6 +1370,16 @@ class DoDoer(Doer):
                     deeds.append((dog, retyme, doer))  # reappend for next run through
             else:  # not retyme yet
                 deeds.append((dog, retyme, doer))  # reappend for next run through
+            redogs.add(dog)  # harmless when dog completed instead
+
+        # .extend called by a doer during this run through appended its new deeds
+        # ahead of the deeds reappended after it, so move new deeds last to
+        # restore enter order for later run throughs
+        fresh = [deed for deed in deeds if deed[0] not in redogs]
+        if fresh:
+            stale = [deed for deed in deeds if deed[0] in redogs]
+            deeds.clear()
+            deeds.extend(stale + fresh)
 
         return (not deeds)  # True if deeds deque is empty
 
